@@ -64,6 +64,11 @@ Worlds ==
                    f2 |-> File(<<UImp("a", "f3", "w"), UBase("b")>>, <<>>), f3 |-> File(<<UBase("w")>>, <<>>)],
      twoUnitsRev |-> [root |-> Root(<<>>, <<CImp("ic", "f1", "c")>>), f1 |-> File(<<UImp("u1", "f2", "b"), UImp("u2", "f2", "a")>>, <<CLeaf2("c", "u1", "u2")>>),
                       f2 |-> File(<<UImp("a", "f3", "w"), UBase("b")>>, <<>>), f3 |-> File(<<UBase("w")>>, <<>>)],
+     \* two components imported from one file (written as one import element when the scenario groups them): the second one needs units
+     \* that its file imports from a third one
+     sharedSource |-> [root |-> Root(<<>>, <<CImp("i1", "f1", "a"), CImp("i2", "f1", "b")>>), f1 |-> File(<<UImp("uu", "f2", "v")>>, <<CLeaf("a", NoneS), CLeaf("b", "uu")>>), f2 |-> File(<<UBase("v")>>, <<>>)],
+     \* a chain whose far end needs imported units (repair and retry re-enters through links left by the first attempt)
+     chainUnits |-> [root |-> Root(<<>>, <<CImp("ic", "f1", "c")>>), f1 |-> File(<<>>, <<CImp("c", "f2", "y")>>), f2 |-> File(<<UImp("uu", "f3", "v")>>, <<CLeaf("y", "uu")>>), f3 |-> File(<<UBase("v")>>, <<>>)],
      twice |-> [root |-> Root(<<UImp("u1", "f1", "u"), UImp("u2", "f1", "u")>>, <<CImp("i1", "f1", "c"), CImp("i2", "f1", "c")>>), f1 |-> File(<<UBase("u")>>, <<CLeaf("c", "u")>>)]]
 
 \* ---------------------------------------------------------------- single faults
